@@ -93,6 +93,19 @@ func gNewWorld() *gWorld {
 		*p = gNewChain(coord, id)
 		coord.Chains[id] = *p
 	}
+	// ibctesting runs InitChain with a zero block time, which leaves the rate-limiting hour epoch in a
+	// state no production chain can have (epoch 0 starting 0001-01-01; BeginBlocker then refuses to
+	// run and InitGenesis treats it as "uninitialised"). Re-initialise it on all three chains exactly
+	// as rate-limiting's InitGenesis does when it runs with a real block time.
+	for _, ch := range []*ibctesting.TestChain{w.A, w.B, w.C} {
+		ctx := ch.GetContext()
+		ep := ratelimittypes.HourEpoch{EpochNumber: uint64(ctx.BlockTime().Hour()), Duration: time.Hour,
+			EpochStartTime: ctx.BlockTime().Truncate(time.Hour), EpochStartHeight: ctx.BlockHeight()}
+		if err := gApp(ch).RateLimitKeeper.SetHourEpoch(ctx, ep); err != nil {
+			panic(err)
+		}
+		coord.CommitBlock(ch)
+	}
 	return w
 }
 
